@@ -103,7 +103,7 @@ def _r1b(ctx):
         blk = getattr(z, "_parent", None)
         body = blk.body if z in getattr(blk, "body", []) else getattr(blk, "orelse", [])
         has_empty = any(U(s) == "instruction_form.port_uops = []" for s in body)
-        unknown = any("TP_UNKWN" in U(s) for s in body)
+        unknown = any(C.mentions(ctx, f, s, "TP_UNKWN") for s in body)
         ctx.check(has_empty or unknown, "R1b", "zero pressure goes with no micro-ops", f.where(z),
                   "a path assigns zero pressure without resetting port_uops (and is not the unknown path, where port_uops "
                   "keeps its initial [])", f.qname, "zero <-> [] at line offset %d" % (z.lineno - f.node.lineno))
